@@ -21,7 +21,7 @@ from .hist_common import SAME, TAU, call_value, quiet, with_entropy
 
 NAME = "B9"
 PROPERTY = "C09"
-RUNS = {"quick": 400, "thorough": 12000}
+RUNS = {"quick": 320, "thorough": 12000}
 RUN_WALL_CAP = 300.0
 REQUIRED_PROBES = {"quick": ["lower_bound_obtained", "two_lower_bounds_different_entropy", "npa_obtained", "complex_predicate", "asymmetric_game", "needs_question_dependent_answers", "referee_dim_1", "method_repeated", "unequal_counts", "three_questions", "two_objects_same_shape"], "thorough": ["lower_bound_obtained", "two_lower_bounds_different_entropy", "npa_obtained", "npa2_obtained", "complex_predicate", "asymmetric_game", "needs_question_dependent_answers", "referee_dim_1", "referee_dim_3", "method_repeated", "unequal_counts"]}
 COMPONENTS = {"real": ["toqito.nonlocal_games.ExtendedNonlocalGame (unentangled_value, quantum_value_lower_bound, commuting_measurement_value_upper_bound, nonsignaling_value)", "toqito.helper.npa_constraints (referee_dim blocks)", "toqito.rand.random_unitary", "cvxpy + SCS/Clarabel"], "stub": ["OS entropy for the see-saw start (numpy.random.bit_generator.randbits -> choice source)"]}
